@@ -315,7 +315,7 @@ func ruleBackup(c *Ctx) {
 	// without passing through the db.View/db.Update call
 	isTxCall := func(ci ssa.CallInstruction) bool {
 		cc := ci.Common()
-		return (calleeIs(cc, modPath, "DB", "View") || calleeIs(cc, modPath, "DB", "Update")) && ci.Parent() == bk
+		return (calleeIs(cc, modPath, "DB", "View") || calleeIs(cc, modPath, "DB", "Update") || calleeIs(cc, modPath, "DB", "managed")) && ci.Parent() == bk
 	}
 	txClosures := map[*ssa.Function]bool{}
 	calls(bk, func(ci ssa.CallInstruction) {
